@@ -25,6 +25,7 @@ import (
 	"time"
 
 	v1 "github.com/fatedier/frp/pkg/config/v1"
+	"github.com/fatedier/frp/pkg/util/verifhook"
 	"github.com/fatedier/frp/pkg/util/xlog"
 )
 
@@ -107,6 +108,7 @@ func (monitor *Monitor) checkWorker() {
 	for {
 		doCtx, cancel := context.WithDeadline(monitor.ctx, time.Now().Add(monitor.timeout))
 		err := monitor.doCheck(doCtx)
+		verifhook.At("mon.probe", "addr", monitor.addr, "ok", err == nil)
 
 		// check if this monitor has been closed
 		select {
